@@ -77,6 +77,35 @@ Theorem C02_kraus_impl_is_spec : forall (F : OF) d (B : nat -> cmat F) (Ks : lis
 Proof. exact chs_of_kraus_impl_eq. Qed.
 Print Assumptions C02_kraus_impl_is_spec.
 
+(* CERTIFICATE => PROPERTY.  The harness never compares Kraus sets; it checks on every output of to_kraus_matrices_from_hs that
+   sum_K <B_a, K B_b K^dag> equals the input HS matrix.  That certificate means: the returned set denotes the map the HS matrix denotes
+   (for every X), and any two Kraus sets with the same HS matrix denote the same map *)
+Theorem C02_kraus_certificate : forall (F : OF) d (B : nat -> cmat F) (Ks : list (cmat F)) (H X : cmat F) i j,
+  basis_complete d B -> (forall a b, (a < d * d)%nat -> (b < d * d)%nat -> chs_of_kraus d B Ks a b = H a b) ->
+  (i < d)%nat -> (j < d)%nat -> capply_hs d B H X i j = kraus_apply d Ks X i j.
+Proof. exact kraus_certificate_thm. Qed.
+Print Assumptions C02_kraus_certificate.
+
+Theorem C02_kraus_sets_same_map : forall (F : OF) d (B : nat -> cmat F) (Ks Ks' : list (cmat F)) (X : cmat F) i j,
+  basis_complete d B -> (forall a b, (a < d * d)%nat -> (b < d * d)%nat -> chs_of_kraus d B Ks a b = chs_of_kraus d B Ks' a b) ->
+  (i < d)%nat -> (j < d)%nat -> kraus_apply d Ks X i j = kraus_apply d Ks' X i j.
+Proof. exact kraus_sets_same_map_thm. Qed.
+Print Assumptions C02_kraus_sets_same_map.
+
+(* ---------------------------------------------------------------- Hermiticity / reality of the representations (Hermitian basis):
+   density matrices of real vecs are Hermitian, coefficient vectors of Hermitian operators are real, Choi matrices of real HS matrices are
+   Hermitian, HS matrices of Hermitian Choi matrices and of Kraus lists are real, the process matrix of a real HS matrix is Hermitian *)
+Theorem C02_hermiticity : forall (F : OF) d (B : nat -> cmat F), basis_hermitian d B ->
+  (forall v : rvec F, hermitian d (op_of_vec d B v)) /\
+  (forall (X : cmat F) a, hermitian d X -> (a < d * d)%nat -> im (cvec_of_op d B X a) = c0 F) /\
+  (forall HS : rmat F, hermitian (d * d) (choi_of_hs d B HS)) /\
+  (forall (Ch : cmat F) a b, hermitian (d * d) Ch -> (a < d * d)%nat -> (b < d * d)%nat -> im (chs_of_choi d B Ch a b) = c0 F) /\
+  (forall (Ks : list (cmat F)) a b, (a < d * d)%nat -> (b < d * d)%nat -> im (chs_of_kraus d B Ks a b) = c0 F) /\
+  (forall (HS : rmat F) al be, (al < d * d)%nat -> (be < d * d)%nat ->
+     process_matrix d B (cof HS) al be = zconj (process_matrix d B (cof HS) be al)).
+Proof. exact hermiticity_thm. Qed.
+Print Assumptions C02_hermiticity.
+
 (* ---------------------------------------------------------------- change of basis *)
 (* convert_hs: the converted matrix denotes the same map, and B -> B' -> B is the identity *)
 Theorem C02_convert_hs_same_operator : forall (F : OF) d (B B' : nat -> cmat F) (H X : cmat F) i j,
